@@ -60,7 +60,7 @@ theorem sp_applyOption : SafePD BB inp 0 applyOption (fun _ => True) := by
 
 theorem sp_directory : SafePD BB inp 0 directory (fun _ => True) := by
   unfold directory
-  refine SafePD.step SafePD.u32le (fun _ _ => ?_)
+  refine SafePD.step SafePD.u32be (fun _ _ => ?_)
   refine SafePD.step (SafePD.vecU8Bounded bb_inp) (fun raw _ => ?_)
   refine SafePD.step (safePD_readString raw) (fun _ _ => ?_)
   exact SafePD.pure trivial
